@@ -31,11 +31,16 @@ SAFE: Dict[str, str] = {
     "vtlengine.duckdb_transpiler.Config.config.DECIMAL_SCALE": "written by set_decimal_config with a value that is a function of the process environment only",
     "vtlengine.duckdb_transpiler.sql._initialized_connections": "WeakSet keyed by connection object; each run owns its connection, and execute_queries passes explicit sql_fragments so the set is not consulted",
     "vtlengine.Utils.__Virtual_Assets.VirtualCounter._instance": "singleton slot written once with an instance that carries no state (counters are class attributes)",
-    "vtlengine.DataTypes.TimeHandling.TimePeriodConfig._representation": "written by every run(), but its only reader (TimePeriodHandler.external_representation) is reachable solely from Cast.cast_scalar / cast_component, which no API path calls (information: becomes a race the moment a reader appears)",
     "vtlengine.Utils.__Virtual_Assets.VirtualCounter.dataset_count": "name generator for intermediate results of ONE statement (__VDS_n__); a concurrent reset can repeat a temporary name, but no API-visible result is keyed by these names (the assignment renames the result) - information, not shown to change results",
     "vtlengine.Utils.__Virtual_Assets.VirtualCounter.component_count": "name generator for intermediate components (__VDC_n__); same reasoning as dataset_count",
     "vtlengine.Operators.Time.Fill_time_series.measures": "written, never read",
     "vtlengine.Operators.Time.Fill_time_series.other_ids": "written, never read",
+}
+# globals that are safe only while no API-reachable function calls one of their reader methods (re-checked on every run)
+SAFE_IF_READERS_UNREACHABLE: Dict[str, Tuple[Tuple[str, ...], str]] = {
+    "vtlengine.DataTypes.TimeHandling.TimePeriodConfig._representation": (("external_representation", "get_representation"),
+        "written by every run(), but its readers (TimePeriodConfig.get_representation <- TimePeriodHandler.external_representation) are called only from "
+        "Cast.cast_scalar / cast_component, which no API path reaches; checked: no API-reachable function calls them"),
 }
 # globals that are safe as long as every access stays inside the named module prefix (checked on every run)
 CONFINED: Dict[str, Tuple[Tuple[str, ...], str]] = {
@@ -123,6 +128,23 @@ def run(rep: Report, tier: str) -> None:
             if not outside:
                 rep.exemption("R17.2", q, why)
                 continue
+        if q in SAFE_IF_READERS_UNREACHABLE:
+            rnames, why = SAFE_IF_READERS_UNREACHABLE[q]
+            # callers (transitively) of the reader functions that are reachable from the API
+            bad_callers = []
+            for rq in gvar.readers:
+                for cq in cg.callers_closure([rq]) | {rq}:
+                    if cq in reach and cq != rq and not cq.endswith(tuple(rnames)):
+                        bad_callers.append(cq)
+            direct = [cq for cq in reach if any(isinstance(c_, ast.Call) and isinstance(c_.func, ast.Attribute) and c_.func.attr in rnames for c_ in walk_no_nested(P.functions[cq].node))] if rnames else []
+            if not bad_callers and not direct:
+                rep.exemption("R17.2", q, why)
+                continue
+            w0 = P.functions[(direct or bad_callers)[0]]
+            rep.add(Finding("R17.2", f"R17.2/{q}", w0.module.rel, w0.node.lineno, w0.qualname,
+                            f"process-global `{q}` is written by every run() and is now READ on an API path ({', '.join(x.split('.')[-1] for x in (direct or bad_callers)[:3])}): "
+                            f"a concurrent call with another time_period_output_format changes the value between this call's write and its read"))
+            continue
         if q in SAFE:
             rep.exemption("R17.2", q, SAFE[q])
             continue
